@@ -1,6 +1,7 @@
 package main
 
 import (
+	"strings"
 	"crypto/cipher"
 	"fmt"
 
@@ -114,6 +115,8 @@ func init() {
 		a, kind, err := newAEAD(key, c.num("noncesize"), c.num("tagsize"), c.str("path"))
 		ev["err"] = errStr(err)
 		ev["kind"] = kind
+		// served by the standard library's generic mode?  (by the package of the dynamic type, not its name)
+		ev["stdlib_mode"] = strings.HasPrefix(kind, "*cipher.")
 		ev["asm_available"] = sm4.VerifCanDoAsm()
 		ev["key_after"] = B(key)
 		if err == nil {
